@@ -171,16 +171,16 @@ func (m *HandoffMonitor) OnEvent(task, parent int, name string, a, b int64) erro
 		t.published = true
 		st.holder = -1
 	case strings.HasSuffix(name, ".release"):
-		if a == 1 {
+		switch a {
+		case 1:
+			// the task ends with an error
 			t.failedFlag = true
-			if name == "enc.release" || t.published {
-				st.failed = true
-				m.FailedTasks++
-			} else if !t.recovered {
-				m.EndOfStream++
-			} else {
-				m.FailedTasks++
-			}
+			st.failed = true
+			m.FailedTasks++
+		case 2:
+			// decoder: no error but nothing decoded - the end marker, or (without checksum) a
+			// damaged block that decodes to nothing; the task cancels its successors but did not fail
+			m.EndOfStream++
 		}
 		if t.holding {
 			// failure while holding: the release gives the stream up
